@@ -65,6 +65,9 @@ func constructLinear(d *drv) {
 		}
 	case "BinaryHeap":
 		h := binaryheap.NewWith[int](d.kf)
+		if d.natural {
+			h = binaryheap.New[int]()
+		}
 		d.c, d.raw = h, h
 		d.push = func(v int) { h.Push(v) }
 		d.pushAll = func(vs ...int) { h.Push(vs...) }
@@ -75,6 +78,9 @@ func constructLinear(d *drv) {
 		d.fingerprint = func() string { return "BH" + arrayListFP(h.VerifInner()) }
 	case "PriorityQueue":
 		q := priorityqueue.NewWith[int](d.kf)
+		if d.natural {
+			q = priorityqueue.New[int]()
+		}
 		d.c, d.raw = q, q
 		d.enqueue, d.dequeue, d.peek = q.Enqueue, q.Dequeue, q.Peek
 		d.iter = func() any { return q.Iterator() }
